@@ -26,14 +26,20 @@ class _Continue(Exception):
 class Interp:
     """evaluates the small statement/expression subset used by the scanners over abstract values."""
 
-    def __init__(self, alphabet: List[str]):
+    def __init__(self, alphabet: List[str], consts: Optional[Dict[str, object]] = None, string_var: str = "string",
+                 list_var: str = "retlist"):
         self.alphabet = alphabet
+        self.consts = consts or {}
+        self.string_var = string_var
+        self.list_var = list_var
 
     def ev(self, e: ast.AST, env: Dict[str, object]):
         if isinstance(e, ast.Constant):
             return e.value
         if isinstance(e, ast.Name):
             if e.id not in env:
+                if e.id in self.consts:
+                    return self.consts[e.id]
                 raise AnalysisError(f"scanner uses unknown name {e.id}")
             return env[e.id]
         if isinstance(e, ast.Tuple):
@@ -50,6 +56,18 @@ class Interp:
                 if self.ev(v, env):
                     return True
             return False
+        if isinstance(e, ast.Compare) and len(e.ops) > 1:
+            # a < b < c  ==  a < b and b < c  (short-circuit)
+            left = e.left
+            for op, right in zip(e.ops, e.comparators):
+                if not self.ev(ast.Compare(left=left, ops=[op], comparators=[right]), env):
+                    return False
+                left = right
+            return True
+        if isinstance(e, (ast.List, ast.Set)):
+            return tuple(self.ev(x, env) for x in e.elts)
+        if isinstance(e, ast.IfExp):
+            return self.ev(e.body, env) if self.ev(e.test, env) else self.ev(e.orelse, env)
         if isinstance(e, ast.Compare) and len(e.ops) == 1:
             a, b = self.ev(e.left, env), self.ev(e.comparators[0], env)
             op = e.ops[0]
@@ -64,22 +82,28 @@ class Interp:
                 return a < b
             if isinstance(op, ast.GtE):
                 return a >= b
+            if isinstance(op, ast.Gt):
+                return a > b
+            if isinstance(op, ast.LtE):
+                return a <= b
             if isinstance(op, ast.Is):
                 return a is b
             if isinstance(op, ast.IsNot):
                 return a is not b
-        if isinstance(e, ast.Subscript) and ast.unparse(e.value) == "string":
+        if isinstance(e, ast.Subscript) and ast.unparse(e.value) == self.string_var:
             idx = self.ev(e.slice, env)
             return env["__at__"](idx)
         if isinstance(e, ast.BinOp) and isinstance(e.op, ast.Add):
             return self.ev(e.left, env) + self.ev(e.right, env)
         if isinstance(e, ast.BinOp) and isinstance(e.op, ast.Mod):
             return self.ev(e.left, env) % self.ev(e.right, env)
-        if isinstance(e, ast.Call) and ast.unparse(e.func) == "string.count" and len(e.args) == 1 and \
+        if isinstance(e, ast.Call) and ast.unparse(e.func) == self.string_var + ".count" and len(e.args) == 1 and \
                 isinstance(e.args[0], ast.Constant) and "__count__" in env:
             return env["__count__"](e.args[0].value)
-        if isinstance(e, ast.Call) and ast.unparse(e.func) == "len" and ast.unparse(e.args[0]) == "string":
+        if isinstance(e, ast.Call) and ast.unparse(e.func) == "len" and ast.unparse(e.args[0]) == self.string_var:
             return env["__len__"]()
+        if isinstance(e, ast.BinOp) and isinstance(e.op, ast.Sub):
+            return self.ev(e.left, env) - self.ev(e.right, env)
         raise AnalysisError(f"scanner expression not understood: {ast.unparse(e)[:60]}")
 
     def run(self, stmts: List[ast.stmt], env: Dict[str, object]):
@@ -96,26 +120,49 @@ class Interp:
             elif isinstance(st, ast.Continue):
                 raise _Continue()
             elif isinstance(st, ast.Expr) and isinstance(st.value, ast.Call) and \
-                    ast.unparse(st.value.func) == "retlist.append":
+                    ast.unparse(st.value.func) == self.list_var + ".append":
                 env["__split__"] = True
+            elif isinstance(st, ast.Break):
+                raise AnalysisError("scanner leaves its loop early (break) on a path that default arguments reach")
+            elif isinstance(st, ast.Pass):
+                pass
             elif isinstance(st, ast.Expr) and isinstance(st.value, ast.Constant):
                 pass
             else:
                 raise AnalysisError(f"scanner statement not understood: {ast.unparse(st)[:60]}")
 
 
+class _Normalise(ast.NodeTransformer):
+    """AnnAssign with a value -> Assign; bare annotations and docstrings dropped (they carry no scanner semantics)"""
+    def visit_AnnAssign(self, n):
+        if n.value is None:
+            return None
+        return ast.copy_location(ast.Assign(targets=[n.target], value=n.value, lineno=n.lineno), n)
+
+
+def normalise(fn: ast.FunctionDef) -> ast.FunctionDef:
+    import copy
+    f2 = _Normalise().visit(copy.deepcopy(fn))
+    ast.fix_missing_locations(f2)
+    return f2
+
+
+
 # --------------------------------------------------------------------------- unterminated string
-def extract_unterminated(fn: ast.FunctionDef):
+def extract_unterminated(fn: ast.FunctionDef, consts: Optional[Dict[str, object]] = None):
     """returns (initial state, step(state, cls) -> state, accept(state) -> bool, alphabet).
 
     Recognised function shape: constant initialisations, optional early `if <cond>: return <const>`
     statements whose condition may use `string.count(<quote>) % 2` (modelled exactly by two parity
     bits carried in the automaton state), one `for char in string` loop, one final return."""
+    fn = normalise(fn)
+    params = [a.arg for a in fn.args.args]
     loops = [s for s in fn.body if isinstance(s, ast.For)]
-    if len(loops) != 1 or ast.unparse(loops[0].iter) != "string":
-        raise AnalysisError("_contains_unterminated_string: `for char in string` loop not found")
+    if len(loops) != 1 or ast.unparse(loops[0].iter) not in params or not isinstance(loops[0].target, ast.Name):
+        raise AnalysisError("_contains_unterminated_string: `for <char> in <string parameter>` loop not found")
     loop = loops[0]
     var = loop.target.id
+    svar = ast.unparse(loop.iter)
     init: Dict[str, object] = {}
     early: List[ast.If] = []
     ret = None
@@ -136,7 +183,7 @@ def extract_unterminated(fn: ast.FunctionDef):
     if ret is None:
         raise AnalysisError("_contains_unterminated_string: final return not found")
     names = sorted(init)
-    interp = Interp(["'", '"', X])
+    interp = Interp(["'", '"', X], consts, string_var=svar)
 
     def step(state: tuple, cls: str) -> tuple:
         vals, par = state[:-1], state[-1]
@@ -196,10 +243,11 @@ def compare_acceptors(impl, ref) -> Tuple[Optional[str], int]:
 
 
 # --------------------------------------------------------------------------- quote_split
-def extract_quote_split(fn: ast.FunctionDef):
+def extract_quote_split(fn: ast.FunctionDef, consts: Optional[Dict[str, object]] = None):
     """Transducer of quote_split: for (state, current class, next class or None) returns
     (state', advance in {1,2}, split?).  Recognised loop forms: `while i < len(string)` with
     `string[i]` / one character of look-ahead, `for i, char in enumerate(string)`, `for char in string`."""
+    fn = normalise(fn)
     init: Dict[str, object] = {}
     for s in fn.body:
         if isinstance(s, ast.Assign) and isinstance(s.targets[0], ast.Name) and isinstance(s.value, ast.Constant):
@@ -207,7 +255,21 @@ def extract_quote_split(fn: ast.FunctionDef):
     state_names = sorted(n for n, v in init.items() if isinstance(v, bool))
     if not state_names:
         raise AnalysisError("quote_split: boolean scanner state not found")
-    interp = Interp(["'", '"', "S", X])
+    params = [a.arg for a in fn.args.args]
+    if len(params) < 2:
+        raise AnalysisError("quote_split: expected (sep, string, ...)")
+    sep_var, svar = params[0], params[1]
+    defaults = {}
+    pos = fn.args.args
+    for a, d in zip(pos[len(pos) - len(fn.args.defaults):], fn.args.defaults):
+        if isinstance(d, ast.Constant) or (isinstance(d, ast.UnaryOp) and isinstance(d.operand, ast.Constant)):
+            defaults[a.arg] = ast.literal_eval(d)
+    for a, d in zip(fn.args.kwonlyargs, fn.args.kw_defaults):
+        if d is not None and (isinstance(d, ast.Constant) or (isinstance(d, ast.UnaryOp) and isinstance(d.operand, ast.Constant))):
+            defaults[a.arg] = ast.literal_eval(d)
+    rets = [s.value for s in ast.walk(fn) if isinstance(s, ast.Return) and s.value is not None]
+    list_var = ast.unparse(rets[-1]) if rets and isinstance(rets[-1], ast.Name) else "retlist"
+    interp = Interp(["'", '"', "S", X], consts, string_var=svar, list_var=list_var)
     loops = [s for s in fn.body if isinstance(s, (ast.While, ast.For))]
     if len(loops) != 1:
         raise AnalysisError("quote_split: scanning loop not found")
@@ -215,27 +277,35 @@ def extract_quote_split(fn: ast.FunctionDef):
     allowed_other = [s for s in fn.body if s is not loop and not (
         isinstance(s, ast.Expr) and isinstance(s.value, ast.Constant)) and not isinstance(s, (ast.Assign, ast.Return))
         and not (isinstance(s, ast.If) and any(isinstance(x, ast.Raise) for x in s.body))
-        and not (isinstance(s, ast.Expr) and "retlist.append" in ast.unparse(s))]
+        and not (isinstance(s, ast.Expr) and (list_var + ".append") in ast.unparse(s))]
     if allowed_other:
         raise AnalysisError(f"quote_split: statement not understood: {ast.unparse(allowed_other[0])[:60]}")
     char_var = None
+    idx_var = "i"
     if isinstance(loop, ast.While):
-        if ast.unparse(loop.test) != "i < len(string)":
-            raise AnalysisError("quote_split: `while i < len(string)` loop not found")
+        t = loop.test
+        if not (isinstance(t, ast.Compare) and len(t.ops) == 1 and isinstance(t.ops[0], ast.Lt) and isinstance(t.left, ast.Name)
+                and ast.unparse(t.comparators[0]) == f"len({svar})"):
+            raise AnalysisError("quote_split: `while <i> < len(<string>)` loop not found")
+        idx_var = t.left.id
         mode = "while"
     else:
         it = ast.unparse(loop.iter)
-        if it == "enumerate(string)" and isinstance(loop.target, ast.Tuple) and len(loop.target.elts) == 2:
+        if it == f"enumerate({svar})" and isinstance(loop.target, ast.Tuple) and len(loop.target.elts) == 2:
+            idx_var = loop.target.elts[0].id
             char_var = loop.target.elts[1].id
-        elif it == "string" and isinstance(loop.target, ast.Name):
+        elif it == svar and isinstance(loop.target, ast.Name):
             char_var = loop.target.id
         else:
             raise AnalysisError(f"quote_split: loop over `{it}` not understood")
         mode = "for"
+    other_init = {k: v for k, v in init.items() if k not in state_names and k != idx_var}
 
     def step(state: tuple, cur: str, nxt: Optional[str]):
-        env: Dict[str, object] = dict(zip(state_names, state))
-        env.update({"i": 0, "left": 0, "sep": "S", "__split__": False})
+        env: Dict[str, object] = dict(defaults)
+        env.update(other_init)
+        env.update(zip(state_names, state))
+        env.update({idx_var: 0, sep_var: "S", "__split__": False})
         env["__len__"] = lambda: 1 if nxt is None else 2
         env["__at__"] = lambda k: cur if k == 0 else (nxt if (k == 1 and nxt is not None) else _oob())
         if char_var:
@@ -244,7 +314,7 @@ def extract_quote_split(fn: ast.FunctionDef):
             interp.run(loop.body, env)
         except _Continue:
             pass
-        adv = env["i"] if mode == "while" else 1
+        adv = env[idx_var] if mode == "while" else 1
         if adv not in (1, 2):
             raise AnalysisError(f"quote_split: iteration advances by {adv}")
         return tuple(env[n] for n in state_names), adv, bool(env["__split__"])
